@@ -25,7 +25,7 @@ func main() {
 const header = "From Verif Require Import Base.Prelude Base.Decimal Enc.JsonEnc Misc.Level Api.Exec Harness.C01H."
 
 func run(c *Ctx) {
-	c.Res.Rule = "a case is a whole logging program: global settings, a logger derivation chain (With/UpdateContext with context ops, hooks, byte-neutral Level/Output/Sample), one event (level, field ops with nesting Dict/Array/Object/EmbedObject/Fields/Func/errors, message, finalizer); values drawn from class alphabets (escaping/UTF-8 classes, integer/float/time boundaries); corpus of fixed defects first; non-trivial = the event was written and has at least 3 members; distinct by Gallina term"
+	c.Res.Rule = "a case is a whole logging program: global settings, a logger derivation chain (With/UpdateContext with context ops, hooks incl. the library's LevelHook, byte-neutral Level/Output/Sample, stretches derived while the logger is Disabled or descends from Nop()), one event started through WithLevel / the level's method / Logger.Write / Print (level, field ops with nesting Dict/Array/Object/EmbedObject/Fields/Func/errors, message, finalizer); values drawn from class alphabets (escaping/UTF-8 classes, integer/float/time boundaries; directed: type names with tags, years and zone offsets at the ends of time.Time, neighbouring instants under dot- and comma-fraction layouts); corpus of fixed defects first; non-trivial = the event was written and has at least 3 members; distinct by Gallina term"
 	c.OpenShards(header, "c01_case * c01_obs", "mismatches c01_run c01_eqb", 400)
 	n := 3000
 	if c.Thorough() {
